@@ -221,6 +221,30 @@ def resize(data, fld, fields, new_bytes):
     return bytes(d)
 
 
+def prefix_binder_hello(data, k):
+    """The captured PSK ClientHello with its last binder replaced by the
+    first k octets of the binder that is correct for the resulting hello
+    (PSK of scen flavour "psk")."""
+    from tlslite.messages import ClientHello
+    from tlslite.utils.codec import Parser
+    from tlslite.handshakehelpers import HandshakeHelpers
+    from tlslite.handshakehashes import HandshakeHashes
+    ch = ClientHello().parse(Parser(bytearray(data[1:])))
+    ext = ch.extensions[-1]
+    if not getattr(ext, "binders", None):
+        return None
+    full = len(ext.binders[-1])
+    ext.binders[-1] = bytearray(k)
+    hh = HandshakeHashes()
+    hh.update(ch.psk_truncate())
+    right = HandshakeHelpers._calc_binder("sha256", bytearray(b"\x5a" * 32),
+                                          hh, True)
+    if len(right) != full:
+        return None
+    ext.binders[-1] = bytearray(right[:k])
+    return bytes(ch.write())
+
+
 def kexkind(sc):
     info = S.ALL_INFOS.get(sc.suite)
     if info is None or info.tls13:
@@ -299,6 +323,17 @@ def site_case(item):
         nd = resize(data, fld, fields, nb)
         if nd is not None and nd != data:
             cases.append((lab, nd))
+    # binder that is a prefix of the right one, with the right one computed
+    # over the hello *as sent* (the lengths inside the truncated hello change
+    # with the binder's length, so cutting the honest binder alone gives a
+    # binder that is wrong for two reasons)
+    if field == "ext":
+        ks = range(0, len(proof)) if tier == "thorough" else \
+            (1, 2, len(proof) // 2, len(proof) - 1)
+        for k in ks:
+            nd = prefix_binder_hello(data, k)
+            if nd is not None and nd != data:
+                cases.append(("binder-prefix-%d-of-recomputed" % k, nd))
     # key-independent degenerate signatures (classic universal forgeries
     # against verifiers that skip a range check)
     if field == "signature":
